@@ -1,4 +1,5 @@
 """C01 — scalar lookups return exactly the shipped table value, or an error."""
+import re
 from vlib.runner import Check
 from vlib import core
 
@@ -16,7 +17,17 @@ class C01(Check):
     id = 'C01'
     module = 'Xrl.Props.C01'
     namespace = 'Xrl.C01'
+    # Props/C01b.lean: LineEnergy / RadRate as the same `lookup2` as the other accessors (corollaries of the C10 theorems: a guard
+    # change in fluor_lines.c / radrate.c is a broken obligation of THIS check too), Biggs occupancy as "positive record"
+    extra_modules = [('Xrl.Props.C01b', 'Xrl.C01')]
     functions = sorted(ACCESSORS)
+    nonvacuity = []
+    assumptions = ['lookup_text_ElectronConfig_Biggs (Biggs occupancy: an error exactly when there is no POSITIVE record) assumes that no occupancy record is negative '
+                   '(biggs_positive_full_fails: the code tests == 0.0 and would return a negative record as a number); executed on the tables of every run: spec.biggsNegative must be empty',
+                   'positional files (kissel_pe.dat, comptonprofiles.dat): record -> cell is a theorem about the loader MODEL (lean-loader: kissel_config_spec, compton_uoccup_spec), '
+                   'tied to src/xrayfiles.c by comparing every cell on the shipped and the regenerated data in every tier']
+    # the specification each accessor is compared with in the search (Biggs: the text's "positive record", Spec/Text0129.lean)
+    SPEC_OP = {'ElectronConfig_Biggs': 'ElectronConfig_BiggsPos'}
 
     def domain(self, fn):
         rng = ACCESSORS[fn]
@@ -98,6 +109,10 @@ class C01(Check):
         #      loaders cell by cell; the Python oracle above stays as an independent second reading of the data files
         from props import c01_loader
         c01_loader.loader_tie(ctx, rep)
+        # every cell on which loader model (theorems) and real loader / compiled table disagree has been turned into the public call
+        # that reads it (c01_loader.reader_call): the search runs those calls and reports them as failing inputs
+        ctx._loader_replay = list(rep.get('loader_replay_lines', []))
+        ctx._loader_tie_msgs = [m for m in rep['tie_broken'] if 'loader' in m or 'name table' in m]
 
     def corr_lines(self, ctx):
         out = []
@@ -113,13 +128,22 @@ class C01(Check):
             for args in self.domain(fn):
                 a = ' '.join(map(str, args))
                 for mode in 'EN':
-                    clines.append('%s %s %s' % (fn, a, mode)); slines.append('spec.%s %s' % (fn, a))
+                    clines.append('%s %s %s' % (fn, a, mode)); slines.append('spec.%s %s' % (self.SPEC_OP.get(fn, fn), a))
         c = ctx.run_c(clines)
         try:
             e = ctx.run_model(slines)
+            inv = ctx.run_model(['spec.biggsNegative'])[0]
         except core.BuildError:
             return 0, [], {'rule': 'specification driver unavailable'}
         viol = []; nontriv = set(); stats = {}
+        # data hypothesis of lookup_text_ElectronConfig_Biggs: no negative occupancy record (each one is a failing input: the library
+        # returns the negative number where the text demands an error)
+        if inv.strip() != 'list []':
+            for Z, sh in re.findall(r'\((\d+), (\d+)\)', inv)[:20]:
+                l = 'ElectronConfig_Biggs %s %s E' % (Z, sh)
+                viol.append(dict(key=l, got=ctx.run_c([l])[0], expected='fails (the occupancy record is negative: no positive record)',
+                                 what='negative Biggs occupancy record: data condition of lookup_text_ElectronConfig_Biggs fails (spec.biggsNegative = %s)' % inv[:200]))
+        stats['biggs_negative_records'] = inv
         for cl, sl, co, eo in zip(clines, slines, c, e):
             if eo.startswith('value'): nontriv.add(sl)
             if not core.expect_agrees(co, eo, rel=0.0, stats=stats):
@@ -138,6 +162,27 @@ class C01(Check):
                 if not ok:
                     viol.append(dict(key=l, got=o, expected=('value %r (the record of the data file, 11 digits)' % w) if w else 'fails (the data file has no positive record)',
                                      what='the accessor returns something else than the data file records for this element and named quantity'))
+        # ---- Biggs occupancy vs data/comptonprofiles.dat, read HERE (positional file: block Z = element Z; line 1 `NShells Npz`, then
+        #      NShells occupancies, 3 x Npz numbers, 2 x Npz numbers per sub-shell with a positive occupancy), independently of the
+        #      library and of the loader model: ElectronConfig_Biggs(Z, s) = s-th occupancy of block Z when positive, an error otherwise
+        nb, vb, biggs = self.biggs_oracle(ctx)
+        viol += vb; stats['biggs_datafile'] = biggs
+        # ---- loader-tie failures as failing inputs
+        nl = 0
+        lr = [l for l in getattr(ctx, '_loader_replay', []) if not l.startswith('#')]
+        if lr:
+            why = '; '.join(getattr(ctx, '_loader_tie_msgs', []))[:600]
+            for l in lr[:24]:
+                call = l.split('   #')[0].strip(); tag = ''
+                m = re.search(r'\s+@(real|synth)$', call)
+                if m: tag = m.group(1); call = call[:m.start()]
+                try:
+                    exe = ctx.sc.path('cdrv' + ctx.build_kissel_config(tag)) if tag else None
+                    o = ctx.run_c([call], exe=exe)[0] if exe else ctx.run_c([call])[0]
+                except core.BuildError as ex: o = 'not run: ' + str(ex)[:100]
+                nl += 1
+                viol.append(dict(key=call + ('  @' + tag if tag else ''), got=o, expected='the value that follows from the data-file record by the loader theorems (lean-loader: load_spec / kissel_config_spec / compton_uoccup_spec)',
+                                 what='this call reads a table cell on which the real loader / the compiled table and the loader model disagree: ' + why))
         # ---- second data configuration: the Kissel table regenerated from data/kissel (tools/regen_kissel.py) -------
         # (only ElectronConfig reads a Kissel-derived table among the scalar accessors; all are re-run, same code objects)
         n2 = 0; kis = {}
@@ -177,8 +222,40 @@ class C01(Check):
             viol.append(dict(key='regenerated-Kissel configuration', got='does not build: ' + str(ex)[:300], expected='builds', what='data/kissel -> kissel_pe.dat -> prdata'))
         stats.update(rule='exhaustive: every accessor x Z in [-3,125] x every macro value in [min-3,max+3] x slot modes {E,N}, in both data configurations '
                           '(Kissel table empty as shipped; Kissel table regenerated from data/kissel); non-trivial = distinct (accessor, Z, macro) with a positive table cell (a value is expected)',
-                     distinct_nontrivial=len(nontriv), exhaustive=True, kissel_regenerated=kis,
+                     distinct_nontrivial=len(nontriv) + biggs.get('positive_records', 0), exhaustive=True, kissel_regenerated=kis, loader_tie_calls=nl,
                      samples=[dict(call=clines[i], impl=c[i], expected=e[i]) for i in (0, len(clines) // 3, len(clines) // 2)])
-        return len(clines) + n2, viol, stats
+        return len(clines) + n2 + nb + nl, viol, stats
+
+    def biggs_oracle(self, ctx):
+        import os
+        from vlib.core import REPO
+        toks = open(os.path.join(REPO, 'data', 'comptonprofiles.dat')).read().split()
+        occ = {}; i = 0; Z = 0; bad = None
+        try:
+            while i < len(toks) and Z < 120:
+                ns, npz = int(toks[i]), int(toks[i + 1]); i += 2; Z += 1
+                o = [float(t) for t in toks[i:i + ns]]; i += ns
+                if len(o) != ns: raise ValueError('short occupancy record')
+                i += 3 * npz + 2 * npz * sum(1 for x in o if x > 0)
+                if i > len(toks): raise ValueError('short block')
+                for s_, x in enumerate(o): occ[(Z, s_)] = x
+        except (ValueError, IndexError) as ex:
+            bad = 'data/comptonprofiles.dat: block %d unreadable (%s)' % (Z, ex)
+        q = ['ElectronConfig_Biggs %d %d E' % (Z_, s_) for Z_ in range(-3, 126) for s_ in range(-3, 32)]
+        viol = []; pos = 0
+        for l, o in zip(q, ctx.run_c(q)):
+            _, Z_, s_, _ = l.split(); w = occ.get((int(Z_), int(s_)))
+            if w is not None and w > 0: pos += 1
+            want = float('%.10E' % w) if w is not None and w > 0 else None
+            pa = core.parse_answer(o)
+            ok = pa['kind'] == 'ok' and ((want is not None and pa['slot'] == 'E' and pa['vals'][0] == want) or
+                                         (want is None and pa['slot'].startswith('F') and pa['vals'][0] == 0))
+            if not ok:
+                viol.append(dict(key=l, got=o, expected=('value %r (occupancy record %d of block %s of data/comptonprofiles.dat)' % (want, int(s_), Z_)) if want is not None
+                                 else 'fails (data/comptonprofiles.dat has no positive occupancy record for this element and sub-shell%s)' % ('' if w is None else ': the record is %r' % w),
+                                 what='ElectronConfig_Biggs vs the occupancy records of data/comptonprofiles.dat'))
+        if bad: viol.append(dict(key='data/comptonprofiles.dat', got=bad, expected='blocks of the documented layout', what='Biggs data-file oracle'))
+        return len(q), viol[:60], dict(blocks=Z, records=len(occ), positive_records=pos, zero_records=sum(1 for x in occ.values() if x == 0),
+                                        negative_records=sum(1 for x in occ.values() if x < 0), calls=len(q))
 
 CHECK = C01()
